@@ -92,4 +92,24 @@ theorem C12_m2m_levels (t : Tree) (upper : Nat) : ∀ c ∈ m2mAll t upper, ∃ 
 -- non-vacuity: a concrete staging
 example : seqPrefixMask 2 = 6 ∧ 63 - seqPrefixMask 2 = 57 := by decide
 
+/-- the documented splits partition the full set: bottom-to-top / transfer / top-to-bottom, and near / far, are pairwise
+    disjoint and cover all six operators; the near field is P2P alone and the far field holds no P2P -/
+theorem C12_alias_partition :
+    flagBottomToTop ||| flagTransfer ||| flagTopToBottom = 63 ∧
+    flagBottomToTop &&& flagTransfer = 0 ∧ flagBottomToTop &&& flagTopToBottom = 0 ∧ flagTransfer &&& flagTopToBottom = 0 ∧
+    flagNearField ||| flagFarField = 63 ∧ flagNearField &&& flagFarField = 0 ∧ flagNearAndFar = 63 ∧
+    hasFlag flagFarField flagP2P = false ∧
+    (∀ f ∈ [flagP2M, flagM2M, flagM2L, flagL2L, flagL2P], hasFlag flagNearField f = false ∧ hasFlag flagFarField f = true) := by decide
+
+/-- far field then near field is a cut of the sequential chain (P2P is its last operator): the two calls perform exactly the
+    kernel calls of one full run, in the same order -/
+theorem C12_far_then_near (t : Tree) (periodic : Bool) (upper : Nat) :
+    executeSeq t periodic flagNearAndFar upper = executeSeq t periodic flagFarField upper ++ executeSeq t periodic flagNearField upper := by
+  have h := C12_split_seq t periodic upper 63 (by decide) 5
+  have e1 : (63 &&& seqPrefixMask 5) = flagFarField := by decide
+  have e2 : (63 &&& (63 - seqPrefixMask 5)) = flagNearField := by decide
+  have e3 : flagNearAndFar = 63 := by decide
+  rw [e1, e2] at h
+  rw [e3]; exact h
+
 end Tbfmm
